@@ -76,11 +76,20 @@ def sorts_ascending_by_id(call, crate):
         return b['k'] == 'Field' and b.get('field_name') == 'id' and root_var(b['lhs']) == pn[0]
     return False
 
+_GAB = {}
+def guards_as_branches(t):
+    """the printer with its early-leaving guard statements read as the match / if-else they abbreviate (facts.returns_as_match)"""
+    if t is None: return None
+    if id(t) not in _GAB:
+        import facts as _facts
+        u = dict(t); u['body'] = _facts.returns_as_match(t['body']); _GAB[id(t)] = (t, u)
+    return _GAB[id(t)][1]
+
 # ------------------------------------------------------------------------------------------------ X1
 def rule_X1_printers(F, R):
     binc = F.bin()
     for fn in ('rsbdd::print_truth_table_recursive', 'rsbdd::print_true_vars_recursive'):
-        t = binc.ithir.get(fn)
+        t = guards_as_branches(binc.ithir.get(fn))
         if t is None:
             R.violation('%s / X1 / anchor' % fn, 'UNDECIDABLE', 'printer %s not found' % fn); continue
         cb = choice_bindings(t)
@@ -394,7 +403,7 @@ def rule_X2(F, R, parts=('table', 'dot')):
 def _x2_table(F, R, binc, FILTERS):
     # (a) truth-table rows
     fn = 'rsbdd::print_truth_table_recursive'
-    t = binc.ithir.get(fn)
+    t = guards_as_branches(binc.ithir.get(fn))
     arms = None
     if t:
         for m in walk(t['body']):
@@ -426,7 +435,7 @@ def _x2_table(F, R, binc, FILTERS):
                     R.violation('%s / X2 / filter=%s leaf=%s' % (fn, f, leaf), 'X2', 'with filter %s a row ending in %s is %s; it must be %s' % (f, leaf, 'printed' if got else 'omitted', 'printed' if want else 'omitted'), (where.get('guard') or where['body']).get('loc'))
     # (b) -v prints only at True
     fn = 'rsbdd::print_true_vars_recursive'
-    t = binc.ithir.get(fn)
+    t = guards_as_branches(binc.ithir.get(fn))
     if t:
         printing = []
         for m in walk(t['body']):
